@@ -39,6 +39,7 @@ func init() {
 		Title: "Contact-request handshake authenticates both parties against any peer behaviour",
 		Explanation: "Decides, from the type-checked SSA of internal/handshake and of the callers of its two entry points, structural necessary conditions of mutual authentication. " +
 			"A backward provenance (per struct field over the functions reachable from one entry point, call-site sensitive for helpers, branches selected by a constant flag pruned) classifies every Diffie-Hellman site by its public half (bytes received from the peer / an account key) and its secret half (generated in the session / the own account key). " +
+			"Calls of function values behind an entry point are resolved: a func-typed parameter is bound to the value passed at each call site (closure, method value), and a helper that runs a local literal table of step functions is treated as the sequence of its elements when it is recognised as a step runner (it calls the function held by every element of the slice parameter in index order, a non-nil step error makes it return a non-nil error, it returns nil only after the loop ran to its end): its nil error then means that every step returned nil, in table order. A table that is not a local literal, or a runner of another shape, is not expanded and the obligations that depend on it fail. " +
 			"(D1) every success return of RequestUsingReaderWriter and ResponseUsingReaderWriter is reached only through the accepting boolean outcome of a Verify whose data is the DH of the peer's hello key with the own session secret and whose signature was received; the requester verifies against its peer-key parameter and nothing received; the responder returns exactly the key it verified. " +
 			"(D2) the responder's success return is reached only after the acknowledge message's Success flag was read and found true. " +
 			"(D3) the proof the responder verifies is the plaintext of a box whose key mixes DH(peer ephemeral, own account key); the requester seals its proof under a key mixing DH(own ephemeral, intended account key): a proof addressed to one responder cannot be forwarded to another. " +
@@ -66,6 +67,7 @@ type c06Prov struct {
 	Atoms map[string]bool
 	Sites map[ssa.Instruction]bool
 	Fns   map[*ssa.Function]bool // module functions whose results were looked into
+	Funcs map[*ssa.Function]bool // function values (functions, closures, bound methods) the data may be
 }
 
 func (p *c06Prov) atomList() []string {
@@ -113,20 +115,25 @@ type c06Index struct {
 }
 
 type c06Walker struct {
-	w      *World
-	scope  map[*ssa.Function]bool
-	entry  *ssa.Function
-	stop   map[ssa.Value]string // values treated as named atoms
-	stopDH bool                 // do not look into the operands of a DH site
-	idx    *c06Index
-	dead   map[*ssa.BasicBlock]bool // blocks no call from the scope can execute (constant bool arguments)
-	escMem map[*ssa.Alloc]bool
-	pwMem  map[*ssa.Parameter]int
+	w          *World
+	scope      map[*ssa.Function]bool
+	entry      *ssa.Function
+	stop       map[ssa.Value]string // values treated as named atoms
+	stopDH     bool                 // do not look into the operands of a DH site
+	idx        *c06Index
+	dead       map[*ssa.BasicBlock]bool             // blocks no call from the scope can execute (constant bool arguments)
+	closures   map[*ssa.Function][]*ssa.MakeClosure // closure creations in scope, by function
+	dynCalls   []ssa.CallInstruction                // calls of function values in scope
+	dynTargets map[ssa.CallInstruction][]*ssa.Function
+	dynCallers map[*ssa.Function][]callSite
+	escMem     map[*ssa.Alloc]bool
+	pwMem      map[*ssa.Parameter]int
 }
 
 func c06NewWalker(w *World, scope map[*ssa.Function]bool, entry *ssa.Function) *c06Walker {
 	wk := &c06Walker{w: w, scope: scope, entry: entry, stop: map[ssa.Value]string{}, stopDH: true,
-		escMem: map[*ssa.Alloc]bool{}, pwMem: map[*ssa.Parameter]int{}}
+		escMem: map[*ssa.Alloc]bool{}, pwMem: map[*ssa.Parameter]int{}, closures: map[*ssa.Function][]*ssa.MakeClosure{},
+		dynTargets: map[ssa.CallInstruction][]*ssa.Function{}, dynCallers: map[*ssa.Function][]callSite{}}
 	idx := &c06Index{stores: map[string][]*ssa.Store{}, loads: map[string][]*ssa.UnOp{}, allocs: map[string][]*ssa.Alloc{}}
 	fns := make([]*ssa.Function, 0, len(scope))
 	for f := range scope {
@@ -159,12 +166,50 @@ func c06NewWalker(w *World, scope map[*ssa.Function]bool, entry *ssa.Function) *
 						k := types.TypeString(el, nil)
 						idx.allocs[k] = append(idx.allocs[k], x)
 					}
+				case *ssa.MakeClosure:
+					if f, ok := x.Fn.(*ssa.Function); ok {
+						wk.closures[f] = append(wk.closures[f], x)
+					}
+				}
+				if ci, ok := in.(ssa.CallInstruction); ok && c06IsDynamicCall(ci.Common()) {
+					wk.dynCalls = append(wk.dynCalls, ci)
 				}
 			}
 		}
 	}
 	wk.idx = idx
+	// calls of function values: two rounds, a target found in the first may be the caller
+	// through which a parameter of the second is bound
+	for round := 0; round < 2 && len(wk.dynCalls) > 0; round++ {
+		targets := map[ssa.CallInstruction][]*ssa.Function{}
+		callers := map[*ssa.Function][]callSite{}
+		for _, ci := range wk.dynCalls {
+			_, st := wk.newProv()
+			ts := st.funcTargets(ci.Common().Value, nil)
+			targets[ci] = ts
+			for _, t := range ts {
+				callers[t] = append(callers[t], callSite{Caller: ci.Parent(), Instr: ci})
+			}
+		}
+		wk.dynTargets, wk.dynCallers = targets, callers
+	}
 	return wk
+}
+
+// callersOf: the call sites of fn inside the scope, calls of function values included.
+func (wk *c06Walker) callersOf(fn *ssa.Function) []callSite {
+	var out []callSite
+	for _, cs := range wk.w.callGraph().callers[fn] {
+		if wk.scope[cs.Caller] {
+			out = append(out, cs)
+		}
+	}
+	for _, cs := range wk.dynCallers[fn] {
+		if wk.scope[cs.Caller] {
+			out = append(out, cs)
+		}
+	}
+	return out
 }
 
 // c06DeadBlocks: blocks of scope functions that cannot execute because a bool parameter
@@ -255,10 +300,43 @@ type c06Key struct {
 }
 
 type c06State struct {
-	wk    *c06Walker
-	p     *c06Prov
-	seen  map[c06Key]bool
-	steps int
+	wk        *c06Walker
+	p         *c06Prov
+	seen      map[c06Key]bool
+	steps     int
+	funcsOnly bool // resolving a function value: what a closure captures is not of interest
+}
+
+func (st *c06State) funcVal(f *ssa.Function) {
+	if st.p.Funcs == nil {
+		st.p.Funcs = map[*ssa.Function]bool{}
+	}
+	st.p.Funcs[f] = true
+}
+
+// funcTargets: the module functions a called function value may be (parameters bound by the
+// frames or by the call sites in scope, fields of literal tables, closures, bound methods).
+func (st *c06State) funcTargets(v ssa.Value, fr *c06Frame) []*ssa.Function {
+	p2, st2 := st.wk.newProv()
+	st2.funcsOnly = true
+	st2.visit(v, fr, 0)
+	var out []*ssa.Function
+	for f := range p2.Funcs {
+		if f.Blocks != nil && inModule(f) {
+			out = append(out, f)
+		}
+	}
+	sort.Slice(out, func(i, j int) bool { return out[i].String() < out[j].String() })
+	return out
+}
+
+// c06IsDynamicCall: a call of a function value (not a static callee, not an interface method).
+func c06IsDynamicCall(cc *ssa.CallCommon) bool {
+	if cc.IsInvoke() || staticCallee(cc) != nil {
+		return false
+	}
+	_, isB := cc.Value.(*ssa.Builtin)
+	return !isB
 }
 
 func (wk *c06Walker) newProv() (*c06Prov, *c06State) {
@@ -333,20 +411,21 @@ func (st *c06State) visit(v ssa.Value, fr *c06Frame, depth int) {
 		}
 	case *ssa.Global:
 		st.p.Atoms["global:"+x.String()] = true
-	case *ssa.Function, *ssa.Builtin:
+	case *ssa.Function:
+		st.funcVal(x)
+	case *ssa.Builtin:
 	case *ssa.Parameter:
 		st.param(x, fr, depth)
 	case *ssa.FreeVar:
 		fn := x.Parent()
 		for i, fv := range fn.FreeVars {
-			if fv != x || fn.Parent() == nil {
+			if fv != x {
 				continue
 			}
-			for _, b := range fn.Parent().Blocks {
-				for _, in := range b.Instrs {
-					if mc, ok := in.(*ssa.MakeClosure); ok && mc.Fn == ssa.Value(fn) && i < len(mc.Bindings) {
-						st.visit(mc.Bindings[i], nil, depth+1)
-					}
+			// closures are found through the scope index (a bound-method wrapper has no parent)
+			for _, mc := range st.wk.closures[fn] {
+				if i < len(mc.Bindings) {
+					st.visit(mc.Bindings[i], nil, depth+1)
 				}
 			}
 		}
@@ -405,8 +484,13 @@ func (st *c06State) visit(v ssa.Value, fr *c06Frame, depth int) {
 	case *ssa.TypeAssert:
 		st.visit(x.X, fr, depth+1)
 	case *ssa.MakeClosure:
-		for _, b := range x.Bindings {
-			st.visit(b, fr, depth+1)
+		if f, ok := x.Fn.(*ssa.Function); ok {
+			st.funcVal(f)
+		}
+		if !st.funcsOnly {
+			for _, b := range x.Bindings {
+				st.visit(b, fr, depth+1)
+			}
 		}
 	case *ssa.Next:
 		st.visit(x.Iter, fr, depth+1)
@@ -449,10 +533,7 @@ func (st *c06State) param(x *ssa.Parameter, fr *c06Frame, depth int) {
 		}
 	}
 	found := false
-	for _, cs := range st.wk.w.callGraph().callers[fn] {
-		if !st.wk.scope[cs.Caller] {
-			continue
-		}
+	for _, cs := range st.wk.callersOf(fn) {
 		if args := c06ArgsOf(cs.Instr); idx < len(args) {
 			found = true
 			st.visit(args[idx], nil, depth+1)
@@ -948,6 +1029,30 @@ func (st *c06State) call(call *ssa.Call, idx int, fr *c06Frame, depth int) {
 			return
 		}
 	}
+	if c06IsDynamicCall(cc) {
+		n := 0
+		for p := fr; p != nil; p = p.parent {
+			n++
+		}
+		if ts := st.funcTargets(cc.Value, fr); len(ts) > 0 && n < 10 {
+			for _, f := range ts {
+				nf := &c06Frame{fn: f, site: call, parent: fr}
+				if st.p.Fns == nil {
+					st.p.Fns = map[*ssa.Function]bool{}
+				}
+				st.p.Fns[f] = true
+				for _, r := range returnsOf(f) {
+					if st.wk.deadInstr(r) {
+						continue
+					}
+					if res := retResults(r); idx < len(res) {
+						st.visit(res[idx], nf, depth+1)
+					}
+				}
+			}
+			return
+		}
+	}
 	st.p.Atoms["call:"+key] = true
 	st.p.Sites[call] = true
 	if c06IsHashSum(key) || c06HashFuncSize(key) > 0 {
@@ -1261,6 +1366,24 @@ type c06Guard struct {
 	memo   map[*ssa.Function]int
 	edges  map[*ssa.Function][]edge
 	verds  map[*ssa.Function][]ssa.Value
+	role   *c06Role // optional: step tables and calls of function values behind an entry point
+}
+
+// tableOf: the ordered step functions when ci calls a step runner with a literal table.
+func (g *c06Guard) tableOf(ci ssa.CallInstruction) []*ssa.Function {
+	if g.role == nil {
+		return nil
+	}
+	return g.role.Tables[ci]
+}
+
+// calleesOf: the module functions ci may call, function values included.
+func (g *c06Guard) calleesOf(ci ssa.CallInstruction) []*ssa.Function {
+	out := g.w.resolve(ci.Common(), nil)
+	if g.role != nil {
+		out = append(out, g.role.Wk.dynTargets[ci]...)
+	}
+	return out
 }
 
 func c06NewGuard(w *World, direct func(fn *ssa.Function, in ssa.Instruction) ([]edge, []ssa.Value)) *c06Guard {
@@ -1288,7 +1411,27 @@ func (g *c06Guard) accept(fn *ssa.Function) ([]edge, []ssa.Value) {
 			if !ok {
 				continue
 			}
+			if steps := g.tableOf(call); len(steps) > 0 {
+				// the runner returns nil only when every step did: one verifying step suffices
+				anyV := false
+				for _, sf := range steps {
+					if g.isVerifier(sf) {
+						anyV = true
+					}
+				}
+				if v := errVerdict(call); anyV && v != nil {
+					acc = append(acc, edgesOfVerdict(v).Accept...)
+					verdicts = append(verdicts, v)
+				}
+				continue
+			}
 			callee := staticCallee(call.Common())
+			if callee == nil {
+				// a function value with one possible target (callback parameter, bound method)
+				if ts := g.calleesOf(call); len(ts) == 1 && c06IsDynamicCall(call.Common()) {
+					callee = ts[0]
+				}
+			}
 			if callee == nil || callee == fn || callee.Blocks == nil || !inModule(callee) || errResultIndex(callee.Signature) < 0 {
 				continue
 			}
@@ -1356,7 +1499,21 @@ func (g *c06Guard) passBefore(fn *ssa.Function, target ssa.Instruction, scope ma
 			if !ok {
 				continue
 			}
-			for _, callee := range g.w.resolve(ci.Common(), nil) {
+			if steps := g.tableOf(ci); len(steps) > 0 {
+				// steps run in order and the first failure aborts: a step is reached only after
+				// all earlier ones succeeded
+				passed := false
+				for _, sf := range steps {
+					if !passed && reaches[sf] && !g.passBefore(sf, target, scope, busy) {
+						return false
+					}
+					if g.isVerifier(sf) {
+						passed = true
+					}
+				}
+				continue
+			}
+			for _, callee := range g.calleesOf(ci) {
 				if callee == fn || !reaches[callee] {
 					continue
 				}
@@ -1384,8 +1541,265 @@ func (g *c06Guard) reachers(tfn *ssa.Function, scope map[*ssa.Function]bool) map
 				q = append(q, cs.Caller)
 			}
 		}
+		if g.role != nil {
+			for _, cs := range g.role.Wk.dynCallers[f] {
+				if scope[cs.Caller] && !out[cs.Caller] {
+					out[cs.Caller] = true
+					q = append(q, cs.Caller)
+				}
+			}
+		}
 	}
 	return out
+}
+
+// ---------------------------------------------------------------------------
+// Step runners: a helper that runs a table of step functions in order.
+
+type c06Runner struct {
+	Param int // index of the slice parameter holding the steps
+	Field int // field of the element struct holding the function, -1 when the elements are functions
+}
+
+// c06RunnerOf recognises fn as a step runner: it calls, for every element of a slice
+// parameter in order, the function the element holds; a non-nil error of a step makes fn
+// return a non-nil error; fn returns nil only after the loop ran to its end. Hence fn's nil
+// error implies that every step returned nil, in table order.
+func c06RunnerOf(fn *ssa.Function) *c06Runner {
+	if fn == nil || fn.Blocks == nil || errResultIndex(fn.Signature) < 0 {
+		return nil
+	}
+	var dyn *ssa.Call
+	for _, b := range fn.Blocks {
+		for _, in := range b.Instrs {
+			call, ok := in.(*ssa.Call)
+			if !ok || !c06IsDynamicCall(call.Common()) {
+				continue
+			}
+			if dyn != nil {
+				return nil
+			}
+			dyn = call
+		}
+	}
+	if dyn == nil || errResultIndex(dyn.Common().Signature()) < 0 {
+		return nil
+	}
+	// the called value: element.field, through the copy of the range variable if any
+	single := func(v ssa.Value) ssa.Value {
+		for i := 0; i < 3; i++ {
+			ld, ok := v.(*ssa.UnOp)
+			if !ok || ld.Op != token.MUL {
+				return v
+			}
+			al, ok := ld.X.(*ssa.Alloc)
+			if !ok || al.Referrers() == nil {
+				return v
+			}
+			var stored ssa.Value
+			n := 0
+			for _, r := range *al.Referrers() {
+				if st, ok := r.(*ssa.Store); ok && st.Addr == ssa.Value(al) {
+					stored = st.Val
+					n++
+				}
+			}
+			if n != 1 {
+				return v
+			}
+			v = stored
+		}
+		return v
+	}
+	field := -1
+	v := single(dyn.Common().Value)
+	var elemAddr *ssa.IndexAddr
+	switch x := v.(type) {
+	case *ssa.Field:
+		field = x.Field
+		if ld, ok := single(x.X).(*ssa.UnOp); ok && ld.Op == token.MUL {
+			elemAddr, _ = ld.X.(*ssa.IndexAddr)
+		}
+	case *ssa.UnOp:
+		if x.Op != token.MUL {
+			return nil
+		}
+		switch a := x.X.(type) {
+		case *ssa.FieldAddr:
+			field = a.Field
+			elemAddr, _ = a.X.(*ssa.IndexAddr)
+			if elemAddr == nil {
+				// field of the range variable's copy
+				if al, ok := a.X.(*ssa.Alloc); ok {
+					if ld, ok := single(&ssa.UnOp{Op: token.MUL, X: al}).(*ssa.UnOp); ok && ld.Op == token.MUL {
+						elemAddr, _ = ld.X.(*ssa.IndexAddr)
+					}
+				}
+			}
+		case *ssa.IndexAddr:
+			elemAddr = a
+		}
+	}
+	if elemAddr == nil {
+		return nil
+	}
+	par, ok := stripConv(elemAddr.X).(*ssa.Parameter)
+	if !ok || !c06FullRangeIndex(elemAddr.Index, par) {
+		return nil
+	}
+	pi := -1
+	for i, p := range fn.Params {
+		if p == par {
+			pi = i
+		}
+	}
+	if pi < 0 {
+		return nil
+	}
+	// a failing step makes the runner fail
+	ev := errVerdict(dyn)
+	if ev == nil || !rejectOnFailure(fn, ev).OK {
+		return nil
+	}
+	// nil is returned only after the loop ran to its end: cut the loop's exit edge(s)
+	cut := map[edge]bool{}
+	for _, b := range fn.Blocks {
+		if len(b.Instrs) == 0 {
+			continue
+		}
+		ifi, ok := b.Instrs[len(b.Instrs)-1].(*ssa.If)
+		if !ok {
+			continue
+		}
+		bo, ok := ifi.Cond.(*ssa.BinOp)
+		if !ok || bo.Op != token.LSS {
+			continue
+		}
+		if call, ok := bo.Y.(*ssa.Call); ok && calleeKey(call.Common()) == "builtin.len" && len(call.Common().Args) == 1 && stripConv(call.Common().Args[0]) == ssa.Value(par) {
+			cut[edge{b, b.Succs[1]}] = true
+		}
+	}
+	if len(cut) == 0 {
+		return nil
+	}
+	inLoop := reach(fn.Blocks[0], cut)
+	idx := errResultIndex(fn.Signature)
+	for _, ret := range returnsOf(fn) {
+		if !inLoop[ret.Block()] || idx >= len(ret.Results) {
+			continue
+		}
+		if !definitelyNonNilErr(c06ResolveSpill(ret.Results[idx]), ret.Block(), 0) {
+			return nil // a nil return before all steps ran
+		}
+	}
+	return &c06Runner{Param: pi, Field: field}
+}
+
+// c06StepTables: the calls, in fns, of a step runner whose table argument is a local
+// composite literal with statically known function elements (functions, closures, method
+// values), with the step functions in table order.
+func c06StepTables(fns []*ssa.Function) map[ssa.CallInstruction][]*ssa.Function {
+	out := map[ssa.CallInstruction][]*ssa.Function{}
+	runners := map[*ssa.Function]*c06Runner{}
+	for _, fn := range fns {
+		for _, b := range fn.Blocks {
+			for _, in := range b.Instrs {
+				call, ok := in.(*ssa.Call)
+				if !ok {
+					continue
+				}
+				callee := staticCallee(call.Common())
+				if callee == nil || callee.Blocks == nil || !inModule(callee) {
+					continue
+				}
+				rn, seen := runners[callee]
+				if !seen {
+					rn = c06RunnerOf(callee)
+					runners[callee] = rn
+				}
+				if rn == nil || rn.Param >= len(call.Common().Args) {
+					continue
+				}
+				if steps := c06LiteralTable(call.Common().Args[rn.Param], rn.Field); len(steps) > 0 {
+					out[call] = steps
+				}
+			}
+		}
+	}
+	return out
+}
+
+// c06LiteralTable reads arg as a slice of a local array literal and returns the function
+// stored in every element (field `field` of it), in index order; nil when any is not static.
+func c06LiteralTable(arg ssa.Value, field int) []*ssa.Function {
+	sl, ok := stripConv(arg).(*ssa.Slice)
+	if !ok || sl.Low != nil || sl.High != nil {
+		return nil
+	}
+	al, ok := sl.X.(*ssa.Alloc)
+	if !ok || al.Referrers() == nil {
+		return nil
+	}
+	at, ok := al.Type().(*types.Pointer).Elem().Underlying().(*types.Array)
+	if !ok {
+		return nil
+	}
+	steps := make([]*ssa.Function, at.Len())
+	asFunc := func(v ssa.Value) *ssa.Function {
+		switch x := stripConv(v).(type) {
+		case *ssa.Function:
+			return x
+		case *ssa.MakeClosure:
+			f, _ := x.Fn.(*ssa.Function)
+			return f
+		}
+		return nil
+	}
+	for _, r := range *al.Referrers() {
+		ia, ok := r.(*ssa.IndexAddr)
+		if !ok {
+			if _, isSl := r.(*ssa.Slice); isSl {
+				continue
+			}
+			if _, dbg := r.(*ssa.DebugRef); dbg {
+				continue
+			}
+			return nil // the array is used in some other way
+		}
+		k, isC := constInt(ia.Index)
+		if !isC || k < 0 || k >= at.Len() || ia.Referrers() == nil {
+			return nil
+		}
+		for _, r2 := range *ia.Referrers() {
+			switch u := r2.(type) {
+			case *ssa.Store:
+				if u.Addr == ssa.Value(ia) && field < 0 {
+					if steps[k] != nil {
+						return nil
+					}
+					steps[k] = asFunc(u.Val)
+				}
+			case *ssa.FieldAddr:
+				if u.Field != field || u.Referrers() == nil {
+					continue
+				}
+				for _, r3 := range *u.Referrers() {
+					if st, ok := r3.(*ssa.Store); ok && st.Addr == ssa.Value(u) {
+						if steps[k] != nil {
+							return nil
+						}
+						steps[k] = asFunc(st.Val)
+					}
+				}
+			}
+		}
+	}
+	for _, f := range steps {
+		if f == nil || f.Blocks == nil {
+			return nil
+		}
+	}
+	return steps
 }
 
 // ---------------------------------------------------------------------------
@@ -1399,6 +1813,7 @@ type c06Role struct {
 	DH     []*c06DH
 	HH     []*c06DH // DH of the received hello key with an own non-account secret: the transcript
 	HHSite map[ssa.Instruction]bool
+	Tables map[ssa.CallInstruction][]*ssa.Function // call of a step runner with a literal table: the steps in order
 }
 
 func c06Describe(c *Ctx, ci ssa.CallInstruction) string {
@@ -1423,9 +1838,29 @@ func c06ShortKey(k string) string {
 func c06BuildRole(c *Ctx, name string, entry *ssa.Function) *c06Role {
 	w := c.W
 	r := &c06Role{Name: name, Entry: entry, Scope: map[*ssa.Function]bool{}, HHSite: map[ssa.Instruction]bool{}}
-	for f := range w.reachableFuncs([]*ssa.Function{entry}, 8) {
-		if inModule(f) && f.Blocks != nil {
-			r.Scope[f] = true
+	addReach := func(roots ...*ssa.Function) bool {
+		grew := false
+		for f := range w.reachableFuncs(roots, 8) {
+			if inModule(f) && f.Blocks != nil && !r.Scope[f] {
+				r.Scope[f] = true
+				grew = true
+			}
+		}
+		return grew
+	}
+	addReach(entry)
+	// function values called behind the entry point (step tables, key-computation callbacks,
+	// bound methods) extend the scope until nothing new is found
+	for round := 0; round < 4; round++ {
+		wk := c06NewWalker(w, r.Scope, entry)
+		grew := false
+		for _, ts := range wk.dynTargets {
+			if addReach(ts...) {
+				grew = true
+			}
+		}
+		if !grew {
+			break
 		}
 	}
 	for f := range r.Scope {
@@ -1433,6 +1868,8 @@ func c06BuildRole(c *Ctx, name string, entry *ssa.Function) *c06Role {
 	}
 	sort.Slice(r.Fns, func(i, j int) bool { return r.Fns[i].String() < r.Fns[j].String() })
 	r.Wk = c06NewWalker(w, r.Scope, entry)
+	r.Tables = c06StepTables(r.Fns)
+	c.count("step_tables_"+name, len(r.Tables))
 	r.DH = c06DHSites(r.Wk)
 	for _, d := range r.DH {
 		c.analysed(d.Fn)
@@ -1824,6 +2261,7 @@ func c06RuleD1(c *Ctx, r *c06Role) []*c06VerifySite {
 		}
 		return nil, nil
 	})
+	g.role = r
 	construct := en + "+Verify(peer proof)"
 	var whys, keyWhys []string
 	for _, vs := range sites {
@@ -1921,6 +2359,7 @@ func c06RuleD2(c *Ctx, r *c06Role) {
 		return
 	}
 	g := c06NewGuard(c.W, func(fn *ssa.Function, in ssa.Instruction) ([]edge, []ssa.Value) { return nil, byCall[in] })
+	g.role = r
 	tested := false
 	for _, ar := range reads {
 		if len(ar.vs) > 0 {
@@ -2127,6 +2566,7 @@ func c06RuleD5(c *Ctx, r *c06Role) {
 		}
 		return nil, nil
 	})
+	g.role = r
 	// signatures over the transcript must not be produced before the check
 	var targets []ssa.CallInstruction
 	for _, ci := range r.callsKeyed(c06IsSign) {
